@@ -683,3 +683,37 @@ def G39_argmin_then_second_criterion(repo, clause, scope=ALL_LIB):
                                   % (ast.unparse(t)[:70], fn.qualname, ast.unparse(second[0])[:40], ast.unparse(st.value)[:40]), slot="argmin-then-filter:%s" % fn.qualname, positive="robust"))
     obs.append(Ob("G39", clause, fns[0], fns[0].node, True, "%d functions in scope, %d nearest-then-test conjunctions flagged" % (len(fns), n), construct="argmin pre-selection inventory", slot="inventory"))
     return obs
+
+
+def G40_collision_test_per_element(repo, clause, scope=ALL_LIB):
+    """A running set that collects what EARLIER items of an outer loop claimed (`to_delete`) is tested and updated element by element inside an inner loop over the elements of the
+    current item: `for x in item: if x in seen: raise; seen.add(x)`.  An item that names one element twice (a match that reaches an atom through two periodic images) then collides
+    with ITSELF and is refused although no other item overlaps it; the collision test belongs in front of the update, on the item as a whole (set(item) against seen)."""
+    obs = []
+    fns = _scope_fns(repo, scope)
+    n = 0
+    for fn in fns:
+        for inner in [x for x in fn.own_nodes() if isinstance(x, ast.For) and isinstance(x.target, ast.Name)]:
+            outer = [a for a in fn.ancestors(inner) if isinstance(a, (ast.For, ast.While))]
+            if not outer:
+                continue
+            v = inner.target.id
+            adds = [c for c in ast.walk(inner) if isinstance(c, ast.Call) and isinstance(c.func, ast.Attribute) and c.func.attr == "add" and isinstance(c.func.value, ast.Name)
+                    and c.args and isinstance(c.args[0], ast.Name) and c.args[0].id == v]
+            for a in adds:
+                S = a.func.value.id
+                # S is created outside the outer loop
+                created_inside = any(isinstance(d, ast.Assign) and any(isinstance(t, ast.Name) and t.id == S for t in d.targets) for d in ast.walk(outer[-1]))
+                if created_inside:
+                    continue
+                tests = [t for t in ast.walk(inner) if isinstance(t, ast.Compare) and len(t.ops) == 1 and isinstance(t.ops[0], ast.In) and isinstance(t.left, ast.Name) and t.left.id == v
+                         and isinstance(t.comparators[0], ast.Name) and t.comparators[0].id == S]
+                raising = [t for t in tests if any(isinstance(r, ast.Raise) and any(g is t or any(y is t for y in ast.walk(g)) for g, pol, k in norm_guards(fn, r)) for r in ast.walk(inner))]
+                if raising:
+                    n += 1
+                    obs.append(Ob("G40", clause, fn, raising[0], False,
+                                  "in %s the running set `%s` is tested (`%s`, then raise) and updated (`%s`) element by element inside the loop over ONE item's elements: an item that "
+                                  "contains the same element twice collides with itself and is refused although it overlaps no other item" % (fn.qualname, S, ast.unparse(raising[0]), ast.unparse(a)),
+                                  slot="self-collision:%s:%s" % (fn.qualname, S), positive="robust"))
+    obs.append(Ob("G40", clause, fns[0], fns[0].node, True, "%d functions in scope, %d per-element collision tests flagged" % (len(fns), n), construct="collision test inventory", slot="inventory"))
+    return obs
